@@ -589,6 +589,11 @@ func (r *Run) nilableParamsOf(fns []*ssa.Function) map[*ssa.Parameter]bool {
 								}
 							}
 						}
+						if fl, ok := a.(*ssa.Field); ok {
+							if st, _ := fl.X.Type().Underlying().(*types.Struct); st != nil && nilableField(st, fl.Field) {
+								isNilable = true
+							}
+						}
 						if !isNilable {
 							continue
 						}
